@@ -3,6 +3,7 @@ package props
 import (
 	"fmt"
 	"go/token"
+	"go/types"
 	"sort"
 	"strings"
 
@@ -433,6 +434,7 @@ func c03() []*Ob {
 						}
 					}
 				}
+				pooledTablesNotKept(c)
 				if fn := c.Fn("frac.writeSortedDocs"); fn != nil {
 					for _, b := range fn.Blocks {
 						ret, ok := b.Instrs[len(b.Instrs)-1].(*ssa.Return)
@@ -554,6 +556,9 @@ func c03() []*Ob {
 		{Prop: "C03", ID: "C03.8", Engine: "DOM(evidence)", Floor: 1,
 			Desc:  "the sealed id table answers position queries like the active one: sealedIDsIndex.LessOrEqual takes a block-table shortcut to true only from the full (MID, RID) comparison with the previous block's minimum, or after looking at the position's own MID (shared rule with C14.6 / C04.8 — an id present in the active fraction must be found in its sealed form)",
 			Check: func(c *Ctx) { lessOrEqualEvidence(c) }},
+		{Prop: "C03", ID: "C03.9", Engine: "INDEX", Floor: 1,
+			Desc:  "an id that the active fraction finds is found in its sealed form: the position search of sealedFetchIndex.findLIDs checks the result of each binary search against a bound and never starts the next search behind the previous result (shared rule with C04.2)",
+			Check: func(c *Ctx) { searchResultBoundChecked(c) }},
 		{Prop: "C03", ID: "C03.6", Engine: "OWN(who-may-read)", Floor: 2,
 			Desc: "the raw MinTIDs column of lids.Table is not comparable with a TID for continued blocks (MinTID is lastMaxTID+1 there); its elements and the IsContinued flags may be read only by GetAdjustedMinTID, through which every lookup (first/last block for a TID, chunk index, next-block test) must go",
 			Check: func(c *Ctx) {
@@ -721,4 +726,69 @@ func skipRuns(p *Prog, fn *ssa.Function, depth int) (runs, singles int, unknown 
 		}
 	}
 	return runs, singles, ""
+}
+
+// pooledTablesNotKept: nothing that sealing puts into the PreloadedData it returns (and that the freshly
+// sealed fraction keeps) aliases a table of the pooled docBlocksWriter — whichever function builds it.
+// A copy (slices.Clone, maps.Clone, append to a fresh slice, make+copy) cuts the derivation.
+func pooledTablesNotKept(c *Ctx) {
+	fn := c.Fn("frac.writeSealedFraction")
+	if fn == nil {
+		return
+	}
+	copies := func(v ssa.Value) bool {
+		cl, ok := v.(*ssa.Call)
+		if !ok {
+			return false
+		}
+		switch CallName(cl) {
+		case "slices.Clone", "maps.Clone", "bytes.Clone":
+			return true
+		case "builtin.append":
+			// append(fresh, x...) copies x into fresh
+			if len(cl.Call.Args) > 0 {
+				if _, isMk := cl.Call.Args[0].(*ssa.MakeSlice); isMk {
+					return true
+				}
+				if sl, isSl := cl.Call.Args[0].(*ssa.Slice); isSl {
+					if _, isAlloc := sl.X.(*ssa.Alloc); isAlloc {
+						return true
+					}
+				}
+			}
+		}
+		return false
+	}
+	pooled := func(v ssa.Value) bool {
+		return ValueIsField(v, "frac.docBlocksWriter", "BlockOffsets") || ValueIsField(v, "frac.docBlocksWriter", "Positions")
+	}
+	n := 0
+	for _, l := range c.P.FindLifted(fn, func(in ssa.Instruction) bool {
+		st, ok := in.(*ssa.Store)
+		if !ok {
+			return false
+		}
+		typ, _, _, okf := FieldOf(st.Addr)
+		return okf && typ == "frac.PreloadedData" && isRefLikeType(st.Val.Type())
+	}) {
+		st := l.In.(*ssa.Store)
+		_, field, _, _ := FieldOf(st.Addr)
+		n++
+		if DerivesFromStop(st.Val, pooled, copies) {
+			c.Violation("alias:PreloadedData:"+field, st.Pos(), "the table stored into PreloadedData.%s is the pooled docBlocksWriter's own buffer (no copy on the way): the writer goes back to its pool when sealing returns, and the next sealing overwrites the table of the fraction that was just sealed (the reloaded form is not affected)", field)
+		} else {
+			c.Site(st.Pos(), "PreloadedData.%s does not alias a pooled writer table", field)
+		}
+	}
+	if n == 0 {
+		c.Undecided("alias:PreloadedData:none", fn.Pos(), "writeSealedFraction no longer fills a PreloadedData")
+	}
+}
+
+func isRefLikeType(t types.Type) bool {
+	switch t.Underlying().(type) {
+	case *types.Slice, *types.Map:
+		return true
+	}
+	return false
 }
